@@ -254,12 +254,19 @@ impl<'a> UnwindContext<'a> {
         previous_ucx: UnwindContext<'a>,
         ecx: &ExplorationContext,
     ) -> Result<Option<Self>, Error> {
-        let mut next_frame_registers: DwarfRegisterMap = previous_ucx.registers;
+        let debugee = previous_ucx.debugee;
+        UnwindContext::new(debugee, previous_ucx.into_caller_registers(), ecx)
+    }
+
+    /// Return registers of the caller frame: the registers restored by the unwind rules of
+    /// this frame, the stack pointer is the CFA of this frame.
+    fn into_caller_registers(self) -> DwarfRegisterMap {
+        let mut caller_registers: DwarfRegisterMap = self.registers;
         let sp_register = Register::Rsp
             .dwarf_register()
             .expect("stack pointer register must map to dwarf register");
-        next_frame_registers.update(sp_register, previous_ucx.cfa.into());
-        UnwindContext::new(previous_ucx.debugee, next_frame_registers, ecx)
+        caller_registers.update(sp_register, self.cfa.into());
+        caller_registers
     }
 
     fn return_address(&self) -> Option<RelocatedAddress> {
@@ -387,7 +394,9 @@ impl<'a> DwarfUnwinder<'a> {
         )?
         .ok_or(UnwindNoContext)?;
 
-        for _ in 0..frame_num {
+        // the registers of a frame are the registers that the unwind context of its callee
+        // restores, so unwind to the callee of the chosen frame
+        for _ in 1..frame_num {
             let ret_addr = unwind_ucx.return_address().ok_or(UnwindTooDeepFrame)?;
 
             ecx = ExplorationContext::new(
@@ -401,8 +410,9 @@ impl<'a> DwarfUnwinder<'a> {
 
             unwind_ucx = UnwindContext::next(unwind_ucx, &ecx)?.ok_or(UnwindNoContext)?;
         }
+        unwind_ucx.return_address().ok_or(UnwindTooDeepFrame)?;
 
-        let unwind_registers = unwind_ucx.registers();
+        let unwind_registers = unwind_ucx.into_caller_registers();
         registers.update_from(&unwind_registers);
 
         Ok(())
